@@ -1,0 +1,1 @@
+//! Verification hooks: misc (cargo feature `mmtk_verif`; add-only wrappers).
